@@ -309,7 +309,12 @@ fn xorshift(s: &mut u64) -> u64 {
 }
 
 pub fn run_controlled(cfg: Config, n: usize, policy: Policy) -> RunOutcome {
-    let ctl = Ctl::new(ctl::Mode::Controlled, n);
+    run_controlled_opts(cfg, n, policy, false)
+}
+
+pub fn run_controlled_opts(cfg: Config, n: usize, policy: Policy, gate_runs: bool) -> RunOutcome {
+    let mut ctl = Ctl::new(ctl::Mode::Controlled, n);
+    Arc::get_mut(&mut ctl).unwrap().gate_runs = gate_runs;
     let rx = spawn_run(cfg, ctl.clone());
     let mut choices = vec![];
     let mut step = 0usize;
@@ -392,6 +397,7 @@ pub fn run_controlled(cfg: Config, n: usize, policy: Policy) -> RunOutcome {
                             for (wi, w) in wishes.iter().enumerate() {
                                 let hit = en.iter().position(|d| match d {
                                     Decision::Poll => w.0 == "poll",
+                                    Decision::Cont(_) => false,
                                     Decision::Begin(t) => w.0 == "begin" && g.tasks[*t].kind == w.1 && g.tasks[*t].file == w.2 && g.tasks[*t].first == w.3,
                                     Decision::End(t) => w.0 == "end" && g.tasks[*t].kind == w.1 && g.tasks[*t].file == w.2 && g.tasks[*t].first == w.3,
                                 });
